@@ -16,6 +16,7 @@
     [run_sound]: under a valuation [rho] that gives every atom its value at the point (units
     non-zero), the two polynomials of every followed node denote the two components of the
     node's real jet (Jet.evJ), and every collected definition holds. *)
+Set Warnings "-ambiguous-paths,-notation-overridden".
 From Coq Require Import ZArith QArith Qreals Reals List Bool Lia Lra.
 From P Require Import Expr Laurent Expand Jet.
 Import ListNotations.
